@@ -7,7 +7,8 @@
    the modelled addTraces on the modelled trace rows, heading row included, and return
    getNumIntersects() after every call).  wf_fs: all intersections at the same loop depth,
    outer loop coordinates lexicographically increasing, presented coordinate lists strictly
-   increasing.  The models are those of intersect.py with the proposed fix for S19 applied. *)
+   increasing.  The models are those of intersect.py after the S19 fix: commit (a finger left on a row
+   of an earlier fiber is forwarded without counting). *)
 From Coq Require Import ZArith List Bool.
 From FT Require Import Model.Base Model.Obs Model.C19Intersect Model.C19Compute Model.C19Check
                        Proofs.ObsP Proofs.C19IntersectP Proofs.C19ComputeP Proofs.C19CheckP.
@@ -58,39 +59,66 @@ Theorem C19_presented_rows : forall a b apos bpos k, ssorted a = true -> ssorted
 Proof. exact presented_rows. Qed.
 Print Assumptions C19_presented_rows.
 
-(* swap count, integer latency: the merge rounds at one fiber (the while loop of
-   _numSwapsTree) charge, per round, the latency per list and per element; a round over n
-   lists leaves ceil(n / min(radix, n)) lists and every element, until one list is left.
-   radix_ok: radix >= 2 or unbounded (radix 1 never terminates in the implementation).
-   PARTIAL with respect to the property's swap clause.  Not proved (checked on every run by
-   the oracle c19_holds on the implementation's totals, and by the correspondence with the
-   model swaps_tree):
-     C19_swaps_tree : depth_ok (depth+2) t -> radix_ok radix ->
-        swaps_tree depth radix (Some lat) t = Some (swaps_spec_int depth radix lat t)
-        (the sum of the round costs over the non-empty depth-0 fibers);
-     C19_swaps_values : same_shape t u = true ->
-        swaps_tree depth radix lat t = swaps_tree depth radix lat u;
-     unbounded latency ("N"): the comparison count of the head-insertion loop has no
-        independent reference in the oracle (only numSwaps t = numSwaps u, and
-        model = implementation). *)
-Theorem C19_swaps_rounds_partial : forall fuel radix lat coords swaps,
+(* ---- swap count (Compute.numSwaps).  radix_ok: radix >= 2 or unbounded (radix 1 never
+   terminates in the implementation, radix 0 raises, a negative radix merges nothing). *)
+
+(* integer latency, whole tensor: numSwaps is the sum, over the non-empty fibers at the given
+   depth, of latency * (lists + elements) per merge round; a round over n lists leaves
+   ceil(n / min(radix, n)) lists and every element, until one list is left *)
+Theorem C19_swaps_tree : forall depth radix lat t,
+  radix_ok radix -> depth_ok (depth + 2) t = true ->
+  swaps_tree depth radix (Some lat) t = Some (swaps_spec_int depth radix lat t).
+Proof. exact swaps_tree_int. Qed.
+Print Assumptions C19_swaps_tree.
+
+(* the merge rounds at one fiber (the while loop of _numSwapsTree), any list of lists *)
+Theorem C19_swaps_rounds : forall fuel radix lat coords swaps,
   radix_ok radix -> (length coords <= fuel)%nat ->
   rounds fuel radix (Some lat) coords swaps
   = Some (swaps + lat * round_cost fuel radix (Z.of_nat (length coords))
                                    (Z.of_nat (length (concat coords)))).
 Proof. exact rounds_int. Qed.
-Print Assumptions C19_swaps_rounds_partial.
+Print Assumptions C19_swaps_rounds.
 
 (* one merge: latency * (lists + elements); the merged list keeps every element *)
-Theorem C19_swaps_merge_partial : forall lat group,
+Theorem C19_swaps_merge : forall lat group,
   fst (merge_int lat group)
   = lat * (Z.of_nat (length group) + sumZ (map (fun l => Z.of_nat (length l)) group))
   /\ length (snd (merge_int lat group)) = length (concat group).
 Proof. exact merge_int_charge. Qed.
-Print Assumptions C19_swaps_merge_partial.
+Print Assumptions C19_swaps_merge.
 
-(* the faithful model's observation meets the property oracle for every well-formed
-   intersection case (c19_wf is false on swap-count cases: see the PARTIAL note above) *)
+(* payload independence, integer and unbounded latency, every radix and depth: two tensors
+   with the same coordinates and the same default-valued leaves cost the same *)
+Theorem C19_swaps_values : forall depth radix lat t u,
+  same_shape t u = true -> swaps_tree depth radix lat t = swaps_tree depth radix lat u.
+Proof. exact swaps_tree_values. Qed.
+Print Assumptions C19_swaps_values.
+
+(* unbounded latency "N", one merge: the head-insertion loop of _merge (sorted head list,
+   bisect_right, len(head) - j + 1 per insertion, pop from the end) returns exactly what the
+   register-bag reference merge_N_ref counts -- one comparison per entering element plus one
+   per waiting front element that is greater, the greatest waiting element leaving -- and the
+   same merged list; for every group of lists, no side condition *)
+Theorem C19_merge_unbounded : forall group, merge_N group = merge_N_ref group.
+Proof. exact merge_N_ref_eq. Qed.
+Print Assumptions C19_merge_unbounded.
+
+(* ... and so does numSwaps of a whole tensor, for every depth, radix and tensor *)
+Theorem C19_swaps_unbounded : forall depth radix t,
+  swaps_tree depth radix None t = swaps_ref_N depth radix t.
+Proof. exact swaps_ref_N_eq. Qed.
+Print Assumptions C19_swaps_unbounded.
+
+(* the reference is defined on every tensor of the stated depth (every list merged is
+   non-empty, the fuel of every loop suffices) *)
+Theorem C19_swaps_unbounded_defined : forall depth radix t,
+  radix_ok radix -> depth_ok (depth + 2) t = true -> exists v, swaps_ref_N depth radix t = Some v.
+Proof. exact swaps_ref_N_total. Qed.
+Print Assumptions C19_swaps_unbounded_defined.
+
+(* the faithful model's observation meets the property oracle for every well-formed case,
+   intersection cases and swap-count cases (integer and unbounded latency) alike *)
 Theorem C19_model_meets_spec : forall c,
   c19_wf c = true -> holds c19_checker c (model c19_checker c) = true.
 Proof. exact c19_model_holds. Qed.
@@ -108,4 +136,16 @@ Example C19_nonvacuous :
   /\ sa_feed (map f_id fs) 1 (split_by [1; 1; 1]%nat fs) = Some [2; 2; 4]
   /\ lf_feed false (map f_id fs) 1 [fs] = Some [4]
   /\ lf_feed true (map f_id fs) 1 [fs] = Some [5].
+Proof. vm_compute. repeat split. Qed.
+
+(* non-vacuity of the swap clauses: the three-list tensor of test_num_swaps_undefined_next
+   costs 15 under radix inf / latency "N" and 3*(3+8) under radix 3 / latency 3; both cases
+   are well-formed *)
+Example C19_nonvacuous_swaps :
+  let t := Node [(0, Node [(1, Leaf 1); (3, Leaf 1); (5, Leaf 1)]);
+                 (1, Node [(0, Leaf 1); (2, Leaf 1); (3, Leaf 1)]);
+                 (2, Node [(1, Leaf 1); (4, Leaf 1)])] in
+  swaps_tree 0 None None t = Some 15
+  /\ swaps_tree 0 (Some 3) (Some 3) t = Some 33
+  /\ c19_wf (CS t t 0 None None) = true /\ c19_wf (CS t t 0 (Some 3) (Some 3)) = true.
 Proof. vm_compute. repeat split. Qed.
